@@ -246,3 +246,30 @@ package ipfslog
 //@   loop 3
 //@     invariant !closed(output) && sentlen(output) == old(sentlen(output)) + $k
 //@     loopmodifies chanof(output)
+
+// ---- difference (C01, C06): entries of A reachable from A's heads that the log does not have yet ----
+//@ func difference
+//@   requires validEntries(entriesA) && validSlice(headsA)
+//@   requires logB == nil || validEntries(logB.Entries)
+//@   lockrequires logB == nil || onlyLogLockHeld(logB)
+//@   ensures validEntries(result) && fresh(result) && fresh(om(result).values) && freshKeys(om(result))
+//@   ensures [difference-yields-new-entries-of-this-log-id] logB != nil ==> forall k string :: has(om(result).values, k) ==> has(om(entriesA).values, k) && om(result).values[k] == om(entriesA).values[k] && !has(om(logB.Entries).values, k) && om(result).values[k].LogID == logB.ID
+//@   ensures logB == nil ==> len(om(result).keys) == 0
+//@   lockensures held[om(result).lock] == 0
+//@   loop 0
+//@     invariant fresh(stack) && off(stack) == 0 && len(stack) == len(headsA)
+//@   loop 1
+//@     invariant validEntries(res)
+//@     invariant fresh(res) && fresh(om(res).values) && freshKeys(om(res)) && fresh(traversed)
+//@     invariant stack == nil || fresh(stack)
+//@     invariant forall k string :: has(om(res).values, k) ==> has(om(entriesA).values, k) && om(res).values[k] == om(entriesA).values[k] && !has(om(logB.Entries).values, k) && om(res).values[k].LogID == logB.ID
+//@     lockinvariant held[om(res).lock] == 0
+//@     loopfresh
+//@   loop 2
+//@     invariant validEntries(res)
+//@     invariant fresh(res) && fresh(om(res).values) && freshKeys(om(res)) && fresh(traversed)
+//@     invariant stack == nil || fresh(stack)
+//@     invariant forall k string :: has(om(res).values, k) ==> has(om(entriesA).values, k) && om(res).values[k] == om(entriesA).values[k] && !has(om(logB.Entries).values, k) && om(res).values[k].LogID == logB.ID
+//@     invariant validEntry(eA)
+//@     lockinvariant held[om(res).lock] == 0
+//@     loopfresh
